@@ -757,3 +757,18 @@ package commitlog
 //@   ensures [no-bytes-beyond-the-index] err == nil ==> s.position <= (last == nil ? 0 : last.Position + int64(last.Size))
 //@   ensures [indexed-what-was-complete] err == nil && last != nil && last != lastEntry ==> s.position == last.Position + int64(last.Size)
 //@   loop 1 invariant pos >= 0 && pos <= s.position && pos == (lastEntry == nil ? 0 : lastEntry.Position + int64(lastEntry.Size)) && s.position == old(s.position) && (lastEntry != nil ==> allocated(lastEntry))
+
+// ClearEarliest(o) (used after retention / compaction removed the head of the log): no entry starts below o any
+// more, the entries that start at or after o are kept unchanged, and when something was cut the history now starts
+// exactly at o
+//@ func (*leaderEpochCache).ClearEarliest serves C02, C05
+//@   requires l != nil && wfEpochs(l)
+//@   ensures [wf] wfEpochs(l)
+//@   ensures [nothing-below] old(len(l.epochOffsets)) >= 1 ==> (forall i int :: 0 <= i && i < len(l.epochOffsets) ==> l.epochOffsets[i].startOffset >= offset || old(l.epochOffsets[0].startOffset) >= offset)
+//@   ensures [starts-at-the-cut] old(len(l.epochOffsets)) >= 1 && old(l.epochOffsets[0].startOffset) < offset ==> len(l.epochOffsets) >= 1 && l.epochOffsets[0].startOffset == offset
+//@   ensures [later-entries-kept] forall j int :: 0 <= j && j < old(len(l.epochOffsets)) && old(l.epochOffsets[j].startOffset) >= offset ==> len(l.epochOffsets) >= old(len(l.epochOffsets)) - j && l.epochOffsets[len(l.epochOffsets) - (old(len(l.epochOffsets)) - j)] == old(l.epochOffsets[j]) && old(l.epochOffsets[j]).startOffset == old(l.epochOffsets[j].startOffset) && old(l.epochOffsets[j]).leaderEpoch == old(l.epochOffsets[j].leaderEpoch)
+//@   loop 1 invariant -1 <= rangeindex && rangeindex < len(l.epochOffsets) && l.epochOffsets == old(l.epochOffsets) && fresh(earliest) && removed == len(earliest) && removed <= rangeindex + 1
+//@   loop 1 invariant forall x *epochOffset :: x.leaderEpoch == old(x.leaderEpoch) && x.startOffset == old(x.startOffset)
+//@   loop 1 invariant forall i int :: 0 <= i && i < len(l.epochOffsets) ==> l.epochOffsets[i] == old(l.epochOffsets[i])
+//@   loop 1 invariant removed == rangeindex + 1 || (removed <= rangeindex && old(l.epochOffsets[removed].startOffset) >= offset)
+//@   loop 1 invariant forall i int :: 0 <= i && i < removed ==> earliest[i] == old(l.epochOffsets[i]) && old(l.epochOffsets[i].startOffset) < offset
